@@ -19,7 +19,10 @@ from .common import make_reader, exc_name
 
 INFO_A = [('DP', 'Integer', '1'), ('AF', 'Float', 'A'), ('DB', 'Flag', '0'), ('ST', 'String', '1'), ('AC', 'Integer', '.')]
 INFO_B = [('AC', 'Integer', '.'), ('DP', 'Float', '1'), ('ST', 'String', '1'), ('DB', 'Flag', '0'), ('AF', 'Float', 'A')]
-HEADERS = ['none', 'meta', 'A', 'B']
+# C: the same INFO ids in the same order as A, but DP declared as String (a cache keyed by the ids alone confuses them)
+INFO_C = [('DP', 'String', '1'), ('AF', 'Float', 'A'), ('DB', 'Flag', '0'), ('ST', 'String', '1'), ('AC', 'Integer', '.')]
+INFO_SETS = {'A': INFO_A, 'B': INFO_B, 'C': INFO_C}
+HEADERS = ['none', 'meta', 'A', 'B', 'C']
 BUFFERS = ['VCFBuffer', 'VCFWithInfoAsStringBuffer', 'VCFBuffer2', 'VCFMatrixBuffer', 'PhasedVCFMatrixBuffer',
            'PhasedHaplotypeVCFMatrixBuffer']
 FIXED = ['chromosome', 'position', 'id', 'ref_seq', 'alt_seq', 'quality', 'filter']
@@ -38,8 +41,8 @@ def header_text(h, tag, samples=True):
     if h == 'none':
         return b''
     lines = ['##fileformat=VCFv4.2', '##hist=%s' % tag]
-    if h in ('A', 'B'):
-        for k, t, n in (INFO_A if h == 'A' else INFO_B):
+    if h in INFO_SETS:
+        for k, t, n in INFO_SETS[h]:
             lines.append('##INFO=<ID=%s,Number=%s,Type=%s,Description="d">' % (k, n, t))
         lines.append('##FORMAT=<ID=GT,Number=1,Type=String,Description="Genotype">')
     cols = '#CHROM\tPOS\tID\tREF\tALT\tQUAL\tFILTER\tINFO'
@@ -80,7 +83,7 @@ def expected_info(h, items):
     """-> ('str', text) or ('typed', {key: value}) for present keys; Flags always."""
     if h in ('none', 'meta'):
         return ('str', info_text(items))
-    decl = {k: (t, n) for k, t, n in (INFO_A if h == 'A' else INFO_B)}
+    decl = {k: (t, n) for k, t, n in INFO_SETS[h]}
     out = {}
     for k, (t, n) in decl.items():
         if t == 'Flag':
@@ -150,7 +153,7 @@ def do_read(h, bname, lazy, rec_ids, tag, phased=True, gt_suffix=''):
         if fixed != exp_fixed:
             return ('column-values', exp_fixed, fixed, None)
         info_col = t.info
-        if bname == 'VCFWithInfoAsStringBuffer' and h in ('A', 'B') and dataclasses.is_dataclass(info_col):
+        if bname == 'VCFWithInfoAsStringBuffer' and h in INFO_SETS and dataclasses.is_dataclass(info_col):
             # whether this buffer keeps INFO as text when the header declares types is not stated: judge the values
             # in whichever form they are delivered
             exp_info = [expected_info(h, RECORDS[r][7]) for r in rec_ids]
